@@ -141,7 +141,7 @@ def tryPrefix : Nat → List (Str × UnOp × Nat) → Str → PR Expr
   | f + 1, (t, u, lv) :: more, s =>
     match lit t s with
     | some s1 =>
-      match parseInfix f lv s1 with
+      match parseInfix f lv (if Gen.prefixSpace then skipSpace s1 else s1) with
       | .ok e rest => .ok (.un u e) rest
       | .fail => tryPrefix f more s
       | .oof => .oof
@@ -369,16 +369,22 @@ def indexOps (s : Str) : PO IndexOps :=
   | some (v, r) => .ok v r
   | none =>
     match reg16 s with
-    | some (x, '+' :: r) =>
-      match expr r with
-      | .ok e rest => .ok (.postIncE x e) rest
-      | .oof => .oof
-      | .fail => .ok (.postInc x) r
-    | some (x, r) =>
-      match r with
-      | c :: _ => if isIdentChar c then .fail else .ok (.none x) r
-      | [] => .ok (.none x) r
     | none => .fail
+    | some (x, r) =>
+      -- r:reg16() "+"   /   r:reg16() !char_ident()
+      let alt34 : PO IndexOps :=
+        match r with
+        | '+' :: r' => .ok (.postInc x) r'
+        | c :: _ => if isIdentChar c then .fail else .ok (.none x) r
+        | [] => .ok (.none x) r
+      -- r:reg16() space() "+" space() e:expr()
+      match skipSpace r with
+      | '+' :: r2 =>
+        match expr (skipSpace r2) with
+        | .ok e rest => .ok (.postIncE x e) rest
+        | .oof => .oof
+        | .fail => alt34
+      | _ => alt34
 
 /-- `instruction_ops()` -/
 def instructionOps (s : Str) : PO IOp :=
@@ -437,7 +443,7 @@ def comment (s : Str) : Option Str :=
   | ';' :: _ => some []
   | '/' :: '*' :: r =>
     match cCommentBody r with
-    | some rest => some (takeWhileP isNl rest).2
+    | some rest => some (takeWhileP isNl (skipSpace rest)).2
     | none => none
   | '/' :: '/' :: _ => some []
   | _ => none
